@@ -43,6 +43,8 @@ pub enum DbOp {
     Code(u8),
     HasStorage(u8),
     BlockHash(u16),
+    /// ask an earlier query of this sequence again (index chosen monotonically among the earlier queries)
+    Again(u8),
     /// execute this transaction on the reference data and commit its output through the wrappers
     Commit(TxSpec),
 }
@@ -83,13 +85,19 @@ where
         DbOp::Code(a) => {
             let info = db.basic(ra(&pool::addr(*a))).unwrap();
             match info {
-                Some(i) if i.code_hash != KECCAK_EMPTY => hex::encode(db.code_by_hash(i.code_hash).unwrap().original_bytes()),
+                // reader convention of AccountInfo::code (and of JournaledState::load_code): inline code when
+                // the wrapper provides it, code_by_hash otherwise (State keeps the code of contracts created
+                // through it inline in the cached account, not in its by-hash table)
+                Some(i) if i.code_hash != KECCAK_EMPTY => match i.code {
+                    Some(c) => hex::encode(c.original_bytes()),
+                    None => hex::encode(db.code_by_hash(i.code_hash).unwrap().original_bytes()),
+                },
                 _ => "".into(),
             }
         }
         DbOp::HasStorage(a) => format!("{}", db.has_storage(ra(&pool::addr(*a))).unwrap()),
         DbOp::BlockHash(d) => format!("{}", db.block_hash(head.saturating_sub(*d as u64 % 300)).unwrap()),
-        DbOp::Commit(_) => String::new(),
+        DbOp::Commit(_) | DbOp::Again(_) => String::new(),
     }
 }
 
@@ -124,12 +132,44 @@ pub fn c20_case(c: &DbCase) -> CaseResult {
     let mut requery_after_commit = false;
     let mut queried: std::collections::BTreeSet<String> = Default::default();
     let mut labels: std::collections::BTreeSet<&'static str> = Default::default();
+    let mut asked: Vec<DbOp> = vec![];
     for (i, op) in c.ops.iter().enumerate() {
+        let resolved;
+        let op = match op {
+            DbOp::Again(r) => {
+                if asked.is_empty() {
+                    continue;
+                }
+                resolved = asked[(*r as usize * asked.len()) >> 8].clone();
+                &resolved
+            }
+            o => o,
+        };
         if let DbOp::Commit(t) = op {
             let tx = t.build(fork, &block, &reference.world);
             let mut evm = Evm::builder().with_db(reference.clone()).with_spec_id(spec).with_env(Box::new(make_env(spec, &block, &tx))).build();
             if let Ok(rs) = evm.transact() {
                 apply_state(&mut reference.world, &rs.state, clear);
+                // caller contract of State::commit ("All accounts should be present inside cache"):
+                // whatever an execution output mentions was loaded through the same database first
+                fn preload<DB: Database>(db: &mut DB, st: &revm::primitives::EvmState)
+                where
+                    DB::Error: std::fmt::Debug,
+                {
+                    let mut addrs: Vec<_> = st.keys().copied().collect();
+                    addrs.sort();
+                    for a in addrs {
+                        let _ = db.basic(a).unwrap();
+                        let mut keys: Vec<_> = st[&a].storage.keys().copied().collect();
+                        keys.sort();
+                        for k in keys {
+                            let _ = db.storage(a, k).unwrap();
+                        }
+                    }
+                }
+                preload(&mut cache, &rs.state);
+                preload(&mut state, &rs.state);
+                preload(&mut state_plain, &rs.state);
                 cache.commit(rs.state.clone());
                 state.commit(rs.state.clone());
                 state_plain.commit(rs.state);
@@ -143,6 +183,7 @@ pub fn c20_case(c: &DbCase) -> CaseResult {
             requery_after_commit = true;
         }
         queried.insert(key);
+        asked.push(op.clone());
         // EIP-161: wrappers may keep a touched-empty account as existing-empty once clearing is active
         let want = q(&mut reference.clone(), op, head, clear);
         let mut check = |name: &str, got: String| -> Result<(), Vec<Failure>> {
@@ -153,8 +194,15 @@ pub fn c20_case(c: &DbCase) -> CaseResult {
                     DbOp::Code(_) => "code_by_hash",
                     DbOp::HasStorage(_) => "has_storage",
                     DbOp::BlockHash(_) => "block_hash",
-                    DbOp::Commit(_) => "commit",
+                    DbOp::Commit(_) | DbOp::Again(_) => "commit",
                 };
+                // the one answer the interface cannot give exactly (known finding): the underlying data still holds
+                // non-zero slots that commits through the caching wrapper have since overwritten with zero
+                if let DbOp::HasStorage(a) = op {
+                    if want == "false" && got == "true" && base.has_storage_ref(ra(&pool::addr(*a))).unwrap() && matches!(name, "CacheDB" | "State+bundle" | "State" | "CacheDB-as-DatabaseRef") {
+                        return Err(vec![Failure::new("C20|has_storage|stale-true-after-commits-zeroed-the-underlying-slots", format!("op {i} {op:?}: {name} answered `true` although every non-zero slot of the underlying data was overwritten with zero by a commit through it"))]);
+                    }
+                }
                 return Err(vec![Failure::new(format!("C20|{name}|{kind}"), format!("op {i} {op:?}: {name} answered `{got}`, the underlying data (+ committed changes) says `{want}`"))]);
             }
             Ok(())
@@ -192,7 +240,7 @@ pub fn c20_case(c: &DbCase) -> CaseResult {
     // EmptyDB answers like empty data
     let mut empty_ref = ModelDB::default();
     empty_ref.inline_code = true;
-    for op in c.ops.iter().filter(|o| !matches!(o, DbOp::Commit(_))).take(4) {
+    for op in c.ops.iter().filter(|o| !matches!(o, DbOp::Commit(_) | DbOp::Again(_))).take(4) {
         let want = q(&mut empty_ref.clone(), op, head, clear);
         let got = q(&mut EmptyDB::default(), op, head, clear);
         if got != want {
@@ -207,7 +255,7 @@ pub fn c20_case(c: &DbCase) -> CaseResult {
 }
 
 pub fn c20(ctx: &mut Ctx) {
-    let n = ctx.tier.pick(20_000, 600_000);
+    let n = ctx.tier.pick(100_000, 3_000_000);
     let mut cfg = WorldCfg::default();
     cfg.invalid_pct = 0;
     cfg.n_contracts = 2..=4;
@@ -220,11 +268,13 @@ pub fn c20(ctx: &mut Ctx) {
                 3 => (0u8..63).prop_map(DbOp::Basic),
                 3 => (0u8..16, 0u8..7).prop_map(|(a, k)| DbOp::Storage(a, k)),
                 2 => (0u8..16).prop_map(DbOp::Code),
-                3 => (0u8..63).prop_map(DbOp::HasStorage),
+                2 => (0u8..63).prop_map(DbOp::HasStorage),
+                2 => (0u8..12).prop_map(DbOp::HasStorage),
+                5 => any::<u8>().prop_map(DbOp::Again),
                 3 => (0u16..300).prop_map(DbOp::BlockHash),
                 2 => world::tx_spec(&cfg2).prop_map(DbOp::Commit),
             ];
-            (world_case(&cfg), any::<bool>(), prop::collection::vec((0u16..300, any::<u8>()), 0..12), prop::collection::vec(op, 1..14)).prop_map(|(world, inline_code, hashes, ops)| DbCase { world, inline_code, hashes, ops })
+            (world_case(&cfg), any::<bool>(), prop::collection::vec((0u16..300, any::<u8>()), 0..12), prop::collection::vec(op, 1..28)).prop_map(|(world, inline_code, hashes, ops)| DbCase { world, inline_code, hashes, ops })
         },
         n,
         c20_case,
